@@ -585,6 +585,7 @@ inline J plan_c01(uint64_t verif_seed, uint64_t index, int tier) {
     cfg.robust_paths = ro.chance(0.4);
     cfg.multi_element_simple_paths = true;
     cfg.rings = true;
+    cfg.named_props_in_gds = true;
     cfg.long_strings = ro.chance(0.2);
     cfg.close_vertices = ro.chance(0.1);
     cfg.simple_polys_only = max_points > 4;  // fracturing is only defined for simple polygons
@@ -756,8 +757,8 @@ inline J plan_c03(uint64_t verif_seed, uint64_t index, int tier) {
             e.set("model", 0);
             l.set("expect", e);
             if (rsch.chance(0.35)) {
-                static const double units[] = {1e-6, 1e-9, 1e-3, 2.5e-7, 1.0};
-                l.set("unit", units[rsch.below(5)]);
+                static const double units[] = {1e-6, 1e-9, 1e-3, 2.5e-7, 1.0, 2e-9, 1.001e-6};
+                l.set("unit", units[rsch.below(7)]);
             }
             if (rsch.chance(0.3)) l.set("tol", 1e-3);
             ops.push(l);
@@ -775,6 +776,7 @@ inline J plan_c03(uint64_t verif_seed, uint64_t index, int tier) {
         cfg.robust_paths = ro.chance(0.3);
         cfg.multi_element_simple_paths = true;
         cfg.rings = true;
+        cfg.named_props_in_gds = true;
         cfg.long_strings = ro.chance(0.2);
         cfg.simple_polys_only = max_points > 4;
         model::MLib m = gen::library(rm, cfg);
@@ -1061,8 +1063,9 @@ inline J plan_c17(uint64_t verif_seed, uint64_t index, int tier) {
                         J e = J::obj();
                         e.set("canon", "FULL");
                         o.set("expect", e);
-                        static const double units[] = {1e-6, 1e-9, 1e-3, 2.5e-7, 1.0, 2.54e-5};
-                        o.set("unit", units[rsch.below(6)]);
+                        // (2e-9, 5e-9, 1e-10, 1.001e-6: close to the units files really have, without being them)
+                        static const double units[] = {1e-6, 1e-9, 1e-3, 2.5e-7, 1.0, 2.54e-5, 2e-9, 5e-9, 1e-10, 1.001e-6};
+                        o.set("unit", units[rsch.below(10)]);
                         if (rsch.chance(0.3)) o.set("filter", random_filter(rsch, m));
                         ops.push(o);
                     } break;
@@ -1227,6 +1230,7 @@ inline J plan_c02(uint64_t verif_seed, uint64_t index, int tier) {
     cfg.robust_paths = ro.chance(0.4);
     cfg.multi_element_simple_paths = true;
     cfg.rings = true;
+    cfg.named_props_in_gds = true;
     cfg.long_strings = ro.chance(0.2);
     cfg.simple_polys_only = true;
     cfg.dangling = ro.chance(0.35);
@@ -1356,6 +1360,7 @@ inline J plan_c04(uint64_t verif_seed, uint64_t index, int tier) {
         cfg.robust_paths = ro.chance(0.3);
         cfg.multi_element_simple_paths = true;
         cfg.rings = true;
+        cfg.named_props_in_gds = true;
         cfg.long_strings = ro.chance(0.2);
         cfg.simple_polys_only = true;
         cfg.dangling = ro.chance(0.3);
